@@ -8,6 +8,7 @@ import (
 	"strings"
 
 	"hv/drive"
+	"hv/fw"
 )
 
 // ProbeMain is a development tool: hvdev-c14 probe [-n=N] [-templ] [-notree] [-v] main.hms [mod=path ...]
@@ -79,4 +80,41 @@ func ProbeMain(args []string) int {
 	}
 	fmt.Printf("== raw code: %d distinct\n", len(rawCodes))
 	return rc
+}
+
+// GenMain is a development tool: hvdev-c14 gen <family> <seed> <outdir> writes the generated
+// program to <outdir>/<module>.hms.
+func GenMain(args []string) int {
+	if len(args) < 3 {
+		fmt.Fprintln(os.Stderr, "usage: gen <family> <seed> <outdir> [xmod|cap|cast|singl|mangle ...]")
+		return 2
+	}
+	seed, _ := strconv.ParseUint(args[1], 10, 64)
+	var p Poison
+	for _, a := range args[3:] {
+		switch a {
+		case "xmod":
+			p.XmodOverlap = true
+		case "cap":
+			p.CapConflict = true
+		case "cast":
+			p.CastMulti = true
+		case "singl":
+			p.MultiSingl = true
+		case "mangle":
+			p.Mangle = true
+		}
+	}
+	f, ok := Families[args[0]]
+	if !ok {
+		fmt.Fprintln(os.Stderr, "unknown family")
+		return 2
+	}
+	b := f(fw.NewRng(seed), p)
+	os.MkdirAll(args[2], 0o755)
+	for k, v := range b.Src {
+		os.WriteFile(args[2]+"/"+k+".hms", []byte(v), 0o644)
+	}
+	fmt.Println(b.Tags, "templ:", b.Templ)
+	return 0
 }
